@@ -481,7 +481,7 @@ fn pick_str(rng: &mut Rng, xs: &[&'static str]) -> &'static str {
 }
 
 fn render_layout(ts: &[Tk], rng: &mut Rng, class: LayoutClass) -> String {
-  const WS: [&str; 8] = [" ", "  ", "\n", "\t", "\r\n", " \n ", "\u{00A0}", "\u{2003}"];
+  const WS: [&str; 12] = [" ", "  ", "\n", "\t", "\r\n", " \n ", "\u{00A0}", "\u{2003}", "\u{200B}", "\u{3000}", "\u{2028}", "\u{205F}"];
   const COMMENTS: [&str; 5] = ["/* c */", "/**/", "/* a + b and ( */", "// x\n", "// 1 + (\n"];
   let mut out = String::new();
   let special_at = if ts.len() > 1 { rng.below(ts.len() as u64 - 1) as usize } else { 0 };
@@ -1619,7 +1619,7 @@ pub fn run(cfg: &Cfg) -> Report {
   // `read_input` against `GapLayout.skipGap`: white space and 0-3 comments in front of `a`.
   {
     let mut gap_rng = rng.fork();
-    let ws: [&str; 7] = [" ", "\n", "\t", "\r\n", "\u{00A0}", "\u{2003}", "  "];
+    let ws: [&str; 11] = [" ", "\n", "\t", "\r\n", "\u{00A0}", "\u{2003}", "  ", "\u{200B}", "\u{3000}", "\u{2028}", "\u{205F}"];
     let body_chars: [&str; 10] = ["x", " ", "*", "/", "\"", "(", "+", "1", "**", "/ *"];
     let n_gaps = if thorough { 40_000 } else { 2_000 };
     let mut greqs = vec![];
